@@ -45,24 +45,26 @@ def qubMargin (pr : Params α) (i : Iterate α) : α := (1 + |i.psix|) * pr.qubT
 
 /-- **An accepted candidate passed the generated ratio test in the `q_model < 0` branch.** -/
 theorem pantr_accepted_ratio (co : Consts α) (P : Problem α) (dir : Direction D α) (pr : Params α)
-    (s : St α D) (ha : (trStage co P dir pr s).accept = true) :
+    (stop : Nat → Bool)
+    (s : St α D) (ha : (trStage co P dir pr stop s).accept = true) :
     ∃ qModel : α, qModel < 0 ∧
-      (trStage co P dir pr s).rho = candidateRatio pr (trStage co P dir pr s).prox
-        (trStage co P dir pr s).cand qModel ∧
-      pr.ratioThresholdAcceptable ≤ (trStage co P dir pr s).rho := by
-  obtain ⟨qm, h1, h2, h3, -⟩ := trStage_accept_ratio co P dir pr s ha
+      (trStage co P dir pr stop s).rho = candidateRatio pr (trStage co P dir pr stop s).prox
+        (trStage co P dir pr stop s).cand qModel ∧
+      pr.ratioThresholdAcceptable ≤ (trStage co P dir pr stop s).rho := by
+  obtain ⟨qm, h1, h2, h3, -⟩ := trStage_accept_ratio co P dir pr stop s ha
   exact ⟨qm, h1, h2, h3⟩
 
 /-- **Accepted ⇒ envelope descent relative to the forward-backward point**, with the margin and
     the model decrease the code used. -/
 theorem pantr_accepted_descent (co : Consts α) (P : Problem α) (dir : Direction D α) (pr : Params α)
-    (s : St α D) (ha : (trStage co P dir pr s).accept = true)
+    (stop : Nat → Bool)
+    (s : St α D) (ha : (trStage co P dir pr stop s).accept = true)
     (hL : pr.ratioApproxFbe = true → pr.LgammaFactor < 1) :
     ∃ qModel : α, qModel < 0 ∧
-      (trStage co P dir pr s).cand.fbe ≤
-        (trStage co P dir pr s).prox.fbe + trMargin pr (trStage co P dir pr s).prox
+      (trStage co P dir pr stop s).cand.fbe ≤
+        (trStage co P dir pr stop s).prox.fbe + trMargin pr (trStage co P dir pr stop s).prox
           - pr.ratioThresholdAcceptable * ratioScale pr * (-qModel) := by
-  obtain ⟨qm, h1, h2, h3⟩ := pantr_accepted_ratio co P dir pr s ha
+  obtain ⟨qm, h1, h2, h3⟩ := pantr_accepted_ratio co P dir pr stop s ha
   refine ⟨qm, h1, ?_⟩
   rw [h2] at h3
   exact ratio_test_descent qm pr.trTol pr.LgammaFactor pr.ratioThresholdAcceptable pr.ratioApproxFbe
@@ -71,11 +73,12 @@ theorem pantr_accepted_descent (co : Consts α) (P : Problem α) (dir : Directio
 /-- … in particular, for a non-negative threshold (and `Lγ_factor ≤ 1`): no increase beyond the
     documented margin. -/
 theorem pantr_accepted_nonincrease (co : Consts α) (P : Problem α) (dir : Direction D α)
-    (pr : Params α) (s : St α D) (ha : (trStage co P dir pr s).accept = true)
+    (pr : Params α)
+    (stop : Nat → Bool) (s : St α D) (ha : (trStage co P dir pr stop s).accept = true)
     (hL : pr.ratioApproxFbe = true → pr.LgammaFactor < 1) (hthr : 0 ≤ pr.ratioThresholdAcceptable) :
-    (trStage co P dir pr s).cand.fbe ≤
-      (trStage co P dir pr s).prox.fbe + trMargin pr (trStage co P dir pr s).prox := by
-  obtain ⟨qm, h1, h2⟩ := pantr_accepted_descent co P dir pr s ha hL
+    (trStage co P dir pr stop s).cand.fbe ≤
+      (trStage co P dir pr stop s).prox.fbe + trMargin pr (trStage co P dir pr stop s).prox := by
+  obtain ⟨qm, h1, h2⟩ := pantr_accepted_descent co P dir pr stop s ha hL
   have hs : 0 ≤ ratioScale pr := by
     unfold ratioScale; split_ifs with h
     · exact (sub_pos.mpr (hL h)).le
@@ -93,25 +96,51 @@ theorem pantr_fb_descent (pr : Params α) (i : Iterate α) (hγ : 0 < i.gamma)
   fb_descent_of_qub pr.qubTol i.psix i.psixhat i.gradPsiTp i.L i.pTp i.hxhat i.gamma hγ h
 
 /-- **Every reported iterate satisfies the quadratic upper bound unless `L` reached `L_max`**
-    (Busy callbacks and the final one). -/
+    (Busy callbacks and the final one) — with one exception since `backtrack_qub` polls the stop flag
+    (C19): the iterate of the *final* callback when a stop request was visible at the final loop-head
+    check (tick `ticks − 1`); that request may have cut the last step-size loop (initial, or in the
+    last iteration) short.  For a stop flag that is never lowered. -/
 theorem pantr_reported_qub (co : Consts α) (P : Problem α) (dir : Direction D α) (d0 : D)
-    (pr : Params α) (stop : Nat → Bool) (oot : Bool) (x0 y Sig errz0 gV : Vec α)
+    (pr : Params α) (stop : Nat → Bool) (hm : StopMono stop) (oot : Bool)
+    (x0 y Sig errz0 gV : Vec α)
     (hfuel : (run co P dir d0 pr stop oot x0 y Sig errz0 gV).fuelOut = false) :
     ∀ cb ∈ (run co P dir d0 pr stop oot x0 y Sig errz0 gV).callbacks,
-      qubViolated pr cb.it = false ∨ pr.Lmax ≤ cb.it.L := by
+      qubViolated pr cb.it = false ∨ pr.Lmax ≤ cb.it.L ∨
+      (cb.status ≠ .Busy ∧ stop ((run co P dir d0 pr stop oot x0 y Sig errz0 gV).ticks - 1) = true) := by
   unfold run at hfuel ⊢
-  cases hi : initState co P d0 pr x0 gV with
+  cases hi : initState co P d0 pr stop x0 gV with
   | inl t => simp
   | inr s =>
     simp only [hi] at hfuel ⊢
-    have hs := initState_good co P d0 pr x0 gV s hi
+    have hs := initState_good co P d0 pr stop x0 gV s hi
     have hc : s.cbs = [] := hs.2.2.2
     intro cb hmem
-    have := (mainLoop_callbacks co P dir pr stop oot x0 y Sig errz0 _ s hs.1 hs.2.1
-      (by rw [hc]; simp) hfuel cb hmem).2
-    unfold QubOK at this
-    simp only [Bool.and_eq_false_iff, decide_eq_false_iff_not, not_lt] at this
-    exact this.symm
+    rcases (mainLoop_callbacks co P dir pr stop hm oot x0 y Sig errz0 _ s hs.1
+      (fun hf hq => hs.2.1 hf hq.here) (by rw [hc]; simp) hfuel cb hmem).2 with this | this
+    · unfold QubOK at this
+      simp only [Bool.and_eq_false_iff, decide_eq_false_iff_not, not_lt] at this
+      rcases this with h | h
+      · exact .inr (.inl h)
+      · exact .inl h
+    · exact .inr (.inr this)
+
+/-- Every iterate reported with status `Busy` — i.e. every iterate the solver went on from —
+    satisfies the quadratic upper bound unless `L` reached `L_max`; so does the final one if no stop
+    request was visible at the final loop-head check. -/
+theorem pantr_reported_qub_busy (co : Consts α) (P : Problem α) (dir : Direction D α) (d0 : D)
+    (pr : Params α) (stop : Nat → Bool) (hm : StopMono stop) (oot : Bool)
+    (x0 y Sig errz0 gV : Vec α)
+    (hfuel : (run co P dir d0 pr stop oot x0 y Sig errz0 gV).fuelOut = false) :
+    ∀ cb ∈ (run co P dir d0 pr stop oot x0 y Sig errz0 gV).callbacks,
+      (cb.status = .Busy ∨ stop ((run co P dir d0 pr stop oot x0 y Sig errz0 gV).ticks - 1) = false) →
+      qubViolated pr cb.it = false ∨ pr.Lmax ≤ cb.it.L := by
+  intro cb hmem hcond
+  rcases pantr_reported_qub co P dir d0 pr stop hm oot x0 y Sig errz0 gV hfuel cb hmem with h | h | h
+  · exact .inl h
+  · exact .inr h
+  · rcases hcond with hb | hns
+    · exact absurd hb h.1
+    · rw [hns] at h; exact absurd h.2 (by decide)
 
 /-- **One trust-region iteration, chained**: for a current iterate that satisfies the quadratic
     upper bound, an accepted candidate has
@@ -120,48 +149,52 @@ theorem pantr_reported_qub (co : Consts α) (P : Problem α) (dir : Direction D 
     `φ_γ(x̂ₖ) ≤ ψ(x̂ₖ) + h(x̂ₖ)` — the one link the code does not test (it holds for an exact prox
     step: take `u = x̂ₖ` in the minimisation defining the envelope). -/
 theorem pantr_tr_iteration_descent (co : Consts α) (P : Problem α) (dir : Direction D α)
-    (pr : Params α) (s : St α D) (ha : (trStage co P dir pr s).accept = true)
+    (pr : Params α)
+    (stop : Nat → Bool) (s : St α D) (ha : (trStage co P dir pr stop s).accept = true)
     (hL : pr.ratioApproxFbe = true → pr.LgammaFactor < 1) (hγ : 0 < s.curr.gamma)
     (hq : qubViolated pr s.curr = false)
-    (henv : (trStage co P dir pr s).prox.fbe ≤ s.curr.psixhat + s.curr.hxhat) :
+    (henv : (trStage co P dir pr stop s).prox.fbe ≤ s.curr.psixhat + s.curr.hxhat) :
     ∃ qModel : α, qModel < 0 ∧
-      (trStage co P dir pr s).cand.fbe ≤
+      (trStage co P dir pr stop s).cand.fbe ≤
         s.curr.fbe - (1 - s.curr.gamma * s.curr.L) / (2 * s.curr.gamma) * s.curr.pTp
-          + qubMargin pr s.curr + trMargin pr (trStage co P dir pr s).prox
+          + qubMargin pr s.curr + trMargin pr (trStage co P dir pr stop s).prox
           - pr.ratioThresholdAcceptable * ratioScale pr * (-qModel) := by
-  obtain ⟨qm, h1, h2⟩ := pantr_accepted_descent co P dir pr s ha hL
+  obtain ⟨qm, h1, h2⟩ := pantr_accepted_descent co P dir pr stop s ha hL
   have h3 := pantr_fb_descent pr s.curr hγ hq
   exact ⟨qm, h1, by linarith⟩
 
 /-- **Rejected ⇒ the forward-backward step is taken; accepted ⇒ the candidate `x̂ₖ + q`.** -/
 theorem pantr_rejected_takes_fb_step (co : Consts α) (P : Problem α) (dir : Direction D α)
-    (pr : Params α) (s : St α D) (eps : α) :
-    ((iterBody co P dir pr s eps).accept = false → (iterBody co P dir pr s eps).curr.x = s.curr.xhat) ∧
-    ((iterBody co P dir pr s eps).accept = true →
-      (iterBody co P dir pr s eps).curr.x = vadd s.curr.xhat (iterBody co P dir pr s eps).q) := by
-  have h := (iterBody_spec co P dir pr s eps).2.2.2
+    (pr : Params α) (stop : Nat → Bool) (s : St α D) (eps : α) :
+    ((iterBody co P dir pr stop s eps).accept = false → (iterBody co P dir pr stop s eps).curr.x = s.curr.xhat) ∧
+    ((iterBody co P dir pr stop s eps).accept = true →
+      (iterBody co P dir pr stop s eps).curr.x = vadd s.curr.xhat (iterBody co P dir pr stop s eps).q) := by
+  have h := (iterBody_spec co P dir pr stop s eps).2.2.2
   constructor <;> intro ha <;> simpa [ha] using h
 
 /-- **The step size never increases** across an iteration … -/
 theorem pantr_gamma_antitone (co : Consts α) (P : Problem α) (dir : Direction D α) (pr : Params α)
+    (stop : Nat → Bool)
     (s : St α D) (eps : α) (h0 : 0 ≤ s.curr.gamma) :
-    (iterBody co P dir pr s eps).curr.gamma ≤ s.curr.gamma :=
-  (iterBody_GL co P dir pr s eps).gamma_le h0
+    (iterBody co P dir pr stop s eps).curr.gamma ≤ s.curr.gamma :=
+  (iterBody_GL co P dir pr stop s eps).gamma_le h0
 
 /-- … **and `γ·L` stays constant** (every change is `γ /= 2; L *= 2`), positivity is kept. -/
 theorem pantr_gammaL_const (co : Consts α) (P : Problem α) (dir : Direction D α) (pr : Params α)
+    (stop : Nat → Bool)
     (s : St α D) (eps : α) :
-    (iterBody co P dir pr s eps).curr.gamma * (iterBody co P dir pr s eps).curr.L
+    (iterBody co P dir pr stop s eps).curr.gamma * (iterBody co P dir pr stop s eps).curr.L
       = s.curr.gamma * s.curr.L ∧
-    (0 < s.curr.gamma → 0 < (iterBody co P dir pr s eps).curr.gamma) :=
-  ⟨(iterBody_GL co P dir pr s eps).gammaL, (iterBody_GL co P dir pr s eps).gamma_pos⟩
+    (0 < s.curr.gamma → 0 < (iterBody co P dir pr stop s eps).curr.gamma) :=
+  ⟨(iterBody_GL co P dir pr stop s eps).gammaL, (iterBody_GL co P dir pr stop s eps).gamma_pos⟩
 
 /-- Initially `γ·L = Lγ_factor` (for a non-zero Lipschitz estimate), so by `pantr_gammaL_const`
     at every iterate. -/
 theorem pantr_gammaL_initial (co : Consts α) (P : Problem α) (d0 : D) (pr : Params α)
-    (x0 gV : Vec α) (s : St α D) (hi : initState co P d0 pr x0 gV = .inr s) (hL : s.curr.L ≠ 0) :
+    (stop : Nat → Bool)
+    (x0 gV : Vec α) (s : St α D) (hi : initState co P d0 pr stop x0 gV = .inr s) (hL : s.curr.L ≠ 0) :
     s.curr.gamma * s.curr.L = pr.LgammaFactor := by
-  obtain ⟨c0, h0, hg⟩ := initState_GL co P d0 pr x0 gV s hi
+  obtain ⟨c0, h0, hg⟩ := initState_GL co P d0 pr stop x0 gV s hi
   rw [hg.gammaL, h0]
   obtain ⟨n, -, hn⟩ := hg
   have hc0L : c0.L ≠ 0 := by
@@ -171,13 +204,14 @@ theorem pantr_gammaL_initial (co : Consts α) (P : Problem α) (d0 : D) (pr : Pa
 /-- **The trust radius never drops below `min_radius`** (for a `min_radius` that is not NaN): true
     initially and kept by every iteration. -/
 theorem pantr_radius_ge_min (co : Consts α) (P : Problem α) (dir : Direction D α) (pr : Params α)
+    (stop : Nat → Bool)
     (hb : RealLike.isNaN pr.minRadius = false) :
     (∀ g : Vec α, pr.minRadius ≤ initialRadius pr g) ∧
     (∀ (s : St α D) (eps : α), pr.minRadius ≤ s.Delta →
-      pr.minRadius ≤ (iterBody co P dir pr s eps).Delta) := by
+      pr.minRadius ≤ (iterBody co P dir pr stop s eps).Delta) := by
   refine ⟨fun g => initialRadius_ge pr g hb, fun s eps h => ?_⟩
-  rw [(iterBody_Delta co P dir pr s eps).1]
-  rcases trStage_Delta co P dir pr s with h1 | ⟨q, rho, h1⟩
+  rw [(iterBody_Delta co P dir pr stop s eps).1]
+  rcases trStage_Delta co P dir pr stop s with h1 | ⟨q, rho, h1⟩
   · rw [h1]; exact h
   · rw [h1]; exact updatedRadius_ge pr q rho s.Delta hb
 
